@@ -552,7 +552,7 @@ def explore_library_failures(chunk):
         if n >= 1:
             tuples += [(a,) for a in names]
         if n >= 2:
-            pool2 = names if chunk["tier"] == "thorough" else sub
+            pool2 = names if chunk["tier"] == "thorough" else sub[::2]
             tuples += [(a, b) for a in pool2 for b in pool2]
         for t in tuples:
             text = call_text(fname, t)
